@@ -402,8 +402,9 @@ class Gridder(GeospatialGrid):
                     np.array(
                         [
                             variable[dateline_crossing_idx]
-                            * first_segment_length
-                            / total_segment_length
+                            * _length_share(
+                                first_segment_length, total_segment_length, 1.0
+                            )
                         ]
                     ),
                 )
@@ -485,8 +486,9 @@ class Gridder(GeospatialGrid):
                     np.array(
                         [
                             var[dateline_crossing_idx]
-                            * second_segment_length
-                            / total_segment_length
+                            * _length_share(
+                                second_segment_length, total_segment_length, 0.0
+                            )
                         ]
                     ),
                     var[dateline_crossing_idx + 1 :],
@@ -1405,6 +1407,16 @@ def great_circle_distance(
 
     """
     return GEOD.inv(lon1, lat1, lon2, lat2, radians=True)[2]
+
+
+def _length_share(part_length, total_length, share_if_zero_length):
+    """Share of a dateline-crossing segment's integrated values that goes to one
+    of its two parts. If the segment has no length at all (the same point given
+    once with longitude +180 and once with -180) the lengths cannot decide, and
+    the first part keeps the whole value."""
+    if total_length == 0:
+        return share_if_zero_length
+    return part_length / total_length
 
 
 def calculate_line_parameters(x: NDArray, y: NDArray) -> tuple[NDArray, NDArray]:
